@@ -253,6 +253,7 @@ type rs_sim struct {
 	scripted int
 	cnt      map[string]int
 	panicked bool
+	removedEver map[uint64]bool
 }
 
 func (s *rs_sim) inc(k string) { s.cnt[k]++ }
@@ -831,6 +832,12 @@ func (s *rs_sim) proposeConf(r *rs_rep, typ pb.ConfChangeType, target uint64) {
 	if t == nil || t.gone {
 		return
 	}
+	if typ == pb.ConfChangeRemoveNode {
+		s.removedEver[target] = true
+	} else if s.removedEver[target] {
+		// replica ids are not reused: a replica whose removal was ever proposed is not added again
+		return
+	}
 	if !t.started {
 		s.start(t, typ == pb.ConfChangeAddLearnerNode)
 	}
@@ -857,6 +864,12 @@ func (s *rs_sim) deliver(i int, keep bool, busySnap bool) {
 	}
 	r := s.reps[m.To]
 	if !s.live(r) || r.rd != nil {
+		return
+	}
+	if m.Type == pb.MsgProp && raft.VerifState(r.n).Lead == 0 {
+		// a forwarded proposal at a node without a known leader would sit in the node's proposal
+		// queue and be stepped together with a later input; the driver treats it as lost
+		s.inc("drops")
 		return
 	}
 	r.n.Step(context.TODO(), m)
@@ -958,6 +971,25 @@ func (s *rs_sim) downCount() int {
 
 func (s *rs_sim) randomStep() {
 	id := s.ids[s.rng.Intn(len(s.ids))]
+	// half of the steps go to whoever has something to do: a delivery or a pipeline stage
+	if s.rng.Intn(100) < 55 {
+		var busy []uint64
+		for _, x := range s.ids {
+			if o := s.reps[x]; s.live(o) && o.rd != nil {
+				busy = append(busy, x)
+			}
+		}
+		el := s.eligible()
+		if len(busy) > 0 && (len(el) == 0 || s.rng.Intn(2) == 0) {
+			id = busy[s.rng.Intn(len(busy))]
+		} else if len(el) > 0 {
+			id = s.net[el[s.rng.Intn(len(el))]].To
+			if r := s.reps[id]; s.live(r) && r.rd == nil {
+				s.deliverSome(r)
+				return
+			}
+		}
+	}
 	r := s.reps[id]
 	if !r.started || r.gone {
 		return
@@ -1005,8 +1037,11 @@ func (s *rs_sim) randomStep() {
 	case x < 32:
 		if isLeader {
 			s.propose(r)
-		} else if s.rng.Intn(4) == 0 {
-			s.propose(r) // proposal at a non-leader: forwarded (MsgProp) or dropped
+		} else if s.rng.Intn(4) == 0 && v.Lead != 0 {
+			// proposal at a follower that knows a leader: forwarded as MsgProp.  (Without a known
+			// leader the node queues proposals and steps them together with a later input; the
+			// driver keeps one input per StepNode so that every step can be logged.)
+			s.propose(r)
 		} else {
 			s.tick(r)
 		}
@@ -1039,6 +1074,13 @@ func (s *rs_sim) randomStep() {
 			s.take(r, rs_jev{Ev: "unreachable", A: peer}, s.moreApply(), false)
 		}
 	default:
+		s.deliverSome(r)
+	}
+}
+
+func (s *rs_sim) deliverSome(r *rs_rep) {
+	id := r.id
+	{
 		el := s.eligible()
 		var mine []int
 		for _, j := range el {
@@ -1173,6 +1215,9 @@ func (s *rs_sim) settle() bool {
 				if !s.live(r) || r.rd != nil {
 					continue
 				}
+				if m.Type == pb.MsgProp && raft.VerifState(r.n).Lead == 0 {
+					continue
+				}
 				r.n.Step(context.TODO(), m)
 				s.inc("deliveries")
 				s.take(r, rs_jev{Ev: "recv", M: rs_convMsg(m)}, true, false)
@@ -1266,12 +1311,12 @@ func (s *rs_sim) scriptStep(op rs_scriptOp) bool {
 		}
 		s.tick(r)
 	case "propose":
-		if !idle {
+		if !idle || raft.VerifState(r.n).Lead == 0 {
 			return false
 		}
 		s.propose(r)
 	case "proposeconf":
-		if !idle {
+		if !idle || raft.VerifState(r.n).Lead == 0 {
 			return false
 		}
 		typ := pb.ConfChangeAddNode
@@ -1392,7 +1437,7 @@ func raftsim(args []string) error {
 		return err
 	}
 	s := &rs_sim{rng: rand.New(rand.NewSource(*seed)), w: w, reps: map[uint64]*rs_rep{}, blocked: map[uint64]bool{},
-		cnt: map[string]int{}, allow1: *allow1, storage: *storage, nextVal: 100}
+		cnt: map[string]int{}, removedEver: map[uint64]bool{}, allow1: *allow1, storage: *storage, nextVal: 100}
 	s.dir = os.Getenv("ZR_SCRATCH")
 	if s.dir == "" {
 		s.dir = "."
